@@ -1039,7 +1039,7 @@ class Div(DiffOperator):
                             return a*(f*Div(F) + Dot(F, grad(f)))
 
                     except:
-                        return cls(expr.func(*vectors), evaluate=False)
+                        return a*cls(expr.func(*vectors), evaluate=False)
 
                 b = cls(expr.func(*vectors), evaluate=False)
 
